@@ -802,6 +802,44 @@ def check_c07(tier, seed):
             if x.grad is not None or v.grad is not None:
                 b.fail("C07.bounded.stale", desc, "null_grad left a gradient on the leaf / its view")
         b.case(desc)
+    # a nulled gradient stays gone -- for the tensor, the views it had and the views taken afterwards -- until the next backward,
+    # whichever member was nulled and whatever (non-backward) statements follow
+    vops = [("[::-1]", lambda t: t[::-1]), ("reshape", lambda t: t.reshape(-1, 1)), ("[...]", lambda t: t[...]), ("T", lambda t: t.T)]
+    follow = [("view-op", lambda t: t[::-1]), ("two-view-ops", lambda t: t[...][1:]), ("nothing", lambda t: None), ("non-view-op", lambda t: t * 2.0), ("view-of-base", None)]
+    for through_view in (True, False):
+        for who in ("base", "view", "view-of-view"):
+            for vn, vf in vops:
+                for fn, ff in follow:
+                    x = mg.tensor(rng.uniform(1, 2, size=(4,)))
+                    v = x[:3]
+                    vv = vf(v)
+                    L = ((vv * vv).sum() + (v * 2.0).sum()) if through_view else (x * x).sum()
+                    L.backward()
+                    target = dict(base=x, view=v)[who] if who != "view-of-view" else vv
+                    desc = dict(nulled=who, backward_through_views=through_view, view=vn, then=fn)
+                    b.count("nulled gradient stays nulled")
+                    target.null_grad()
+                    new_t = None
+                    try:
+                        new_t = ff(target) if ff is not None else x[1:]
+                    except Exception as e:
+                        b.error(f"nulled/{desc}: {type(e).__name__}: {e}")
+                        continue
+                    def window_or_none(t):
+                        # after nulling, a tensor may only report a gradient that is a live window onto its base's CURRENT gradient (C06);
+                        # anything else is the old value coming back
+                        g = t.grad
+                        return g is None or (t.base is not None and t.base.grad is not None and np.shares_memory(g, t.base.grad))
+
+                    if not window_or_none(target):
+                        b.fail("C07.bounded.nulled_gradient_came_back", desc, f"target.grad = {np.asarray(target.grad).tolist()} after null_grad(), not a window onto its base's gradient")
+                    elif who == "base" and (x.grad is not None or v.grad is not None or vv.grad is not None):
+                        b.fail("C07.bounded.nulled_gradient_came_back", desc, "the nulled leaf or one of its views still reports a gradient")
+                    elif new_t is not None and isinstance(new_t, Tensor) and fn in ("view-op", "two-view-ops") and not window_or_none(new_t):
+                        b.fail("C07.bounded.nulled_gradient_came_back", desc, f"a fresh view of the nulled tensor reports a gradient {np.asarray(new_t.grad).tolist()} that is not a window onto its base's gradient")
+                    elif not window_or_none(v) or not window_or_none(vv):
+                        b.fail("C07.bounded.nulled_gradient_came_back", desc, "an existing view reports a gradient that is not a window onto its base's gradient")
+                    b.case(desc)
     return b
 
 
